@@ -171,8 +171,9 @@ open Mhd.Resp Mhd.Reply in
     call sequences.**  Let `r` be ANY response object obtained from `MHD_create_response_for_upgrade`
     by legal API calls (`cs`: add / delete headers incl. several "Connection" values in any case and
     order, footers, `MHD_set_response_options` with any flags except the insanity flag), queued with a
-    1xx status on a connection that is not already in MUST_CLOSE (any HTTP version, method, early or
-    late reply, any "Connection" tokens in the request).  Then
+    1xx status on ANY connection (any HTTP version, method, early or late reply, any "Connection" tokens
+    in the request, also a connection already forced to MUST_CLOSE by the request's framing: fix F37,
+    cf. `Mhd.C04.upgrade_reply_no_close`).  Then
     * `setup_reply_properties` decides MUST_UPGRADE, no body, no body headers,
     * no automatic "Connection" field is written,
     * `add_user_headers` writes exactly the application's stored headers, verbatim and in order
@@ -182,7 +183,7 @@ open Mhd.Resp Mhd.Reply in
     * no automatic "Content-Length" / "Transfer-Encoding" is written,
     * and no Connection field of the whole block carries a `close` token. -/
 theorem upgrade_head_connection_tokens (cs : List Call) (hl : ∀ c ∈ cs, c.Legal) (c : Mhd.Reply.Conn)
-    (hk : c.keepalive ≠ .mustClose) (code : Nat) (hc : code ≤ 199) (date : Option Bytes) :
+    (code : Nat) (hc : code ≤ 199) (date : Option Bytes) :
     (setupReplyProperties c (runCalls Resp.createUpgrade cs) code) = (.mustUpgrade, ⟨false, false, false⟩) ∧
     connFields c (runCalls Resp.createUpgrade cs) .mustUpgrade = [] ∧
     userFields c (runCalls Resp.createUpgrade cs) .mustUpgrade ⟨false, false, false⟩
@@ -193,7 +194,7 @@ theorem upgrade_head_connection_tokens (cs : List Call) (hl : ∀ c ∈ cs, c.Le
     Mhd.Http.announcesClose (((allFields c (runCalls Resp.createUpgrade cs) date .mustUpgrade
         ⟨false, false, false⟩).map toHttp).map Mhd.Http.normField) = false := by
   obtain ⟨hi, ht, hu, hcc⟩ := upgradeObj_facts cs hl
-  refine ⟨setup_upgrade c _ code hu hk hc, connFields_upgrade c _, userFields_upgrade c _ hi, ?_, by simp [bodyHdrSegs],
+  refine ⟨setup_upgrade c _ code hu hc, connFields_upgrade c _, userFields_upgrade c _ hi, ?_, by simp [bodyHdrSegs],
     Mhd.Tok.no_close_in_fields' c _ date .mustUpgrade _ hi ht hcc rfl⟩
   intro v rest hh
   rw [userFields_upgrade c _ hi]
@@ -216,7 +217,7 @@ theorem head101_explicit (cfg : Cfg) (cs : List Call) (hl : ∀ c ∈ cs, c.Lega
         ++ ((fields101 (replyConn cfg) (runCalls Resp.createUpgrade cs) cfg.date).map fieldLine).flatten ++ [13, 10] := by
   obtain ⟨hi, _, hu, _⟩ := upgradeObj_facts cs hl
   unfold head101
-  rw [headBytes_upgrade (replyConn cfg) _ _ cfg.date hi hu (by simp [replyConn]) (by show Mhd.Gen.Upg.switchingProtocols ≤ 199; decide)]
+  rw [headBytes_upgrade (replyConn cfg) _ _ cfg.date hi hu (by show Mhd.Gen.Upg.switchingProtocols ≤ 199; decide)]
   have e1 : versionStr (runCalls Resp.createUpgrade cs) false = [72, 84, 84, 80, 47, 49, 46, 49] := by
     simp only [versionStr, h10]; decide
   have e2 : codeDigits Mhd.Gen.Upg.switchingProtocols = [49, 48, 49] := by decide
@@ -227,13 +228,14 @@ theorem head101_explicit (cfg : Cfg) (cs : List Call) (hl : ∀ c ∈ cs, c.Lega
 open Mhd.Resp Mhd.Reply in
 /-- **The head does not depend on the request**: HTTP/1.1 or 1.2+, any method, reply queued at the
     first or the final handler call, request with `Connection: keep-alive, upgrade` or
-    `Connection: close, upgrade`, client half-closed — the same bytes. -/
+    `Connection: close, upgrade`, client half-closed, connection already forced to MUST_CLOSE (request with both
+    Content-Length and chunked Transfer-Encoding; fix F37) — the same bytes. -/
 theorem upgrade_head_indep_of_request (cs : List Call) (hl : ∀ c ∈ cs, c.Legal) (c c' : Mhd.Reply.Conn)
-    (hk : c.keepalive ≠ .mustClose) (hk' : c'.keepalive ≠ .mustClose) (hs : c.suppressDate = c'.suppressDate)
+    (hs : c.suppressDate = c'.suppressDate)
     (code : Nat) (hc : code ≤ 199) (date : Bytes) :
     headBytes c (runCalls Resp.createUpgrade cs) code date = headBytes c' (runCalls Resp.createUpgrade cs) code date := by
   obtain ⟨hi, _, hu, _⟩ := upgradeObj_facts cs hl
-  exact headBytes_indep_of_request c c' _ code date hi hu hk hk' hs hc
+  exact headBytes_indep_of_request c c' _ code date hi hu hs hc
 
 /-- an accepted upgrade response has status 101 and none of the HTTP/1.0 response flags -/
 theorem accepted_upgrade_is_101_http11 (cfg : Cfg) (shutdown : Bool) (x : Conn) (rs : Mhd.Upg.Resp)
@@ -597,9 +599,9 @@ example : (connOf Ex.base Ex.behs (Ex.ops.take 11) 0).appOwns = true ∧
     keep-alive response flag, its "Connection" value has the `upgrade` token in the middle
     (hypotheses of `upgrade_head_connection_tokens` / `head101_explicit` are satisfiable, non-trivially) -/
 example : (∀ c ∈ Ex.upCalls, c.Legal) ∧ Ex.upResp.obj.flags.sendKeepAlive = true ∧ Ex.upResp.upgrade = true ∧
-    Ex.upResp.obj.flags.http10Server = false ∧ (replyConn Ex.base).keepalive ≠ .mustClose ∧
+    Ex.upResp.obj.flags.http10Server = false ∧
     Ex.upResp.connHdr = some [88, 45, 65, 44, 32, 117, 112, 71, 82, 65, 68, 69, 44, 32, 88, 45, 66] := by
-  refine ⟨?_, by decide, by decide, by decide, by decide, by decide⟩
+  refine ⟨?_, by decide, by decide, by decide, by decide⟩
   intro c hc
   simp only [Ex.upCalls, List.mem_cons, List.not_mem_nil, or_false] at hc
   rcases hc with rfl | rfl | rfl | rfl | rfl
@@ -608,6 +610,11 @@ example : (∀ c ∈ Ex.upCalls, c.Legal) ∧ Ex.upResp.obj.flags.sendKeepAlive 
   · exact ⟨by decide, fun h => absurd h (by decide)⟩
   · exact ⟨by decide, fun h => absurd h (by decide)⟩
   · exact ⟨by decide, fun h => absurd h (by decide)⟩
+
+/-- the theorems hold in particular on a connection that the request's framing already forced to MUST_CLOSE
+    (Content-Length together with chunked Transfer-Encoding): still MUST_UPGRADE, still the same head (fix F37) -/
+example : (Mhd.Reply.setupReplyProperties { keepalive := .mustClose } Ex.upResp.obj 101).1 = .mustUpgrade ∧
+    headBytes { keepalive := .mustClose } Ex.upResp.obj 101 Ex.base.date = head101 Ex.base Ex.upResp := by decide
 
 set_option maxRecDepth 200000 in
 /-- … and its 101 head, computed by the reply builder: `HTTP/1.1 101 Switching Protocols`, `Date: D`,
